@@ -33,6 +33,7 @@ func runC15(c *an.Ctx) {
 	// ---- R1 capture bounds
 	nLoops := 0
 	loopDone := map[*ssa.BasicBlock]bool{}
+	exitsDone := map[*ssa.BasicBlock]bool{}
 	bounds := map[string][]string{}
 	for _, fn := range c.P.ModFuncs {
 		if relPkg(fn) != "internal/operators" {
@@ -75,6 +76,35 @@ func runC15(c *an.Ctx) {
 					} else {
 						c.Ok("R1", "capture loop in "+an.RelName(fn)+" stores a value for every index it visits", in.Pos(), "every path through the body passes CaptureField")
 					}
+				}
+			}
+			// ... and the loop is left only because the matches are exhausted or ten captures are stored: every edge
+			// out of the loop is caused by the match source (nil / end of the match list) or by the capture counter
+			if !exitsDone[l.Header] {
+				exitsDone[l.Header] = true
+				nEx := 0
+				for _, e := range l.ExitEdges() {
+					b, si := e[0].(*ssa.BasicBlock), e[1].(int)
+					ifi, ok := b.Instrs[len(b.Instrs)-1].(*ssa.If)
+					if !ok {
+						continue
+					}
+					nEx++
+					legit := false
+					var desc []string
+					for _, a := range an.CondAtoms(ifi.Cond, si == 0) {
+						desc = append(desc, tempName.ReplaceAllString(a.String(), ""))
+						switch {
+						case a.R == "nil" && a.Op == "==": // iterator exhausted
+							legit = true
+						case a.R == "10" || a.R == "9": // capture counter (the bound itself is checked above)
+							legit = true
+						case strings.Contains(a.R, "len(") || strings.Contains(a.L, "rangeindex"): // end of the match list
+							legit = true
+						}
+					}
+					c.Check(legit, "R1", fmt.Sprintf("capture loop in %s: exit #%d is caused by the end of the matches or by the tenth capture", an.RelName(fn), nEx), ifi.Pos(), strings.Join(desc, " && "),
+						"the capture loop is also left when "+strings.Join(desc, " && ")+": matches that follow are not captured (and, for @pm, not stored in TX.1-9) although fewer than ten captures exist")
 				}
 			}
 			idx := an.Expr(cc.Args[0])
@@ -282,6 +312,40 @@ func runC15(c *an.Ctx) {
 	// ---- R7 the numeric comparison operators are siblings: they compare the same two parsed numbers and differ
 	// only in the comparison itself (a value parsed differently by one of them makes @gt disagree with @ge/!@le).
 	c15NumericSiblings(c)
+
+	// ---- R8 bytes are examined as bytes: the byte-oriented operators (byte ranges, URL encoding, UTF-8 validation,
+	// pm, the string operators) index their input; ranging over a string yields runes, and byte(r) of a rune
+	// produced by such a range keeps the low byte of the code point, which is not a byte of the input.
+	nConv := 0
+	for _, fn := range c.P.ModFuncs {
+		if rp := relPkg(fn); rp != "internal/operators" && rp != "internal/transformations" && rp != "internal/strings" && rp != "internal/url" {
+			continue
+		}
+		an.Instrs(fn, func(in ssa.Instruction) {
+			cv, ok := in.(*ssa.Convert)
+			if !ok {
+				return
+			}
+			bt, ok := cv.Type().Underlying().(*types.Basic)
+			if !ok || bt.Kind() != types.Uint8 {
+				return
+			}
+			ex, ok := cv.X.(*ssa.Extract)
+			if !ok || ex.Index != 2 {
+				return
+			}
+			nx, ok := ex.Tuple.(*ssa.Next)
+			if !ok || !nx.IsString {
+				return
+			}
+			nConv++
+			lo, hi, _ := an.FactsAt(in).Range(an.Expr(cv.X))
+			_ = lo
+			c.Check(hi <= 255, "R8", "rune from a string range converted to byte in "+an.RelName(fn), in.Pos(), "guarded to 0..255",
+				"a rune obtained by ranging over the input string is converted to a byte: for multi-byte characters this is the low byte of the code point, not a byte of the input, so byte-level predicates (allowed byte ranges, hex digits ...) are decided on values the input does not contain")
+		})
+	}
+	c.OkTrivial("R8", "rune-to-byte conversions of string-range values in the byte-oriented packages", token.NoPos, fmt.Sprintf("%d sites", nConv))
 
 	// ---- R6 @ipMatch masks
 	if im := c.Fn("R6", "internal/operators.newIPMatch"); im != nil {
